@@ -161,6 +161,36 @@ def check(case, ctx):
         if tmpdir:
             import shutil
             shutil.rmtree(tmpdir, ignore_errors=True)
+    # ---- an array passed to ds[k] = a (or Dataset(a=a)) is not reachable through later in-place edits of the dataset
+    for form in ('setitem', 'ctor'):
+        src2 = deco(gen.build(case["a"], meta=False))
+        s0 = monitors.snapshot(src2)
+        if form == 'setitem':
+            d2 = da.Dataset()
+            d2['v'] = src2
+        else:
+            d2 = da.Dataset(v=src2)
+        x2, y2, z2 = src2.dims
+        edits = [("ds.set_axis(values)", lambda: d2.set_axis(list(range(100, 100 + d2.axes[y2].size)), axis=y2)),
+                 ("ds.axes[d][0] = label", lambda: d2.axes[z2].__setitem__(0, d2.axes[z2].values[0] + 1000)),
+                 ("ds.axes[d].attrs", lambda: d2.axes[y2].attrs.__setitem__('note', 'n')),
+                 ("ds.rename_axes", lambda: d2.rename_axes({x2: 'xx9'})),
+                 ("ds.dims = ...", lambda: setattr(d2, 'dims', tuple(q + '_r' for q in d2.dims))),
+                 ("ds[k].values[...] = 0", lambda: dict.__getitem__(d2, 'v').values.__setitem__(Ellipsis, 0) if False else None),
+                 ("ds.set_axis(inplace=False)", lambda: d2.set_axis(list(range(500, 500 + d2.axes[1].size)), axis=1, inplace=False))]
+        for ename, fn in edits:
+            try:
+                fn()
+            except Exception:
+                ctx.outcomes['dataset-edit-raised'] += 1
+            ctx.outcomes['dataset-edits-after-insertion'] += 1
+            monitors.COUNTS['imm_operand_checks'] += 1
+            s1 = monitors.snapshot(src2)
+            if s1 != s0:
+                ctx.v(ID, "inserted-array-changed-by-dataset-edit:%s:%s" % (form, ename),
+                      "after %s the in-place dataset edit %s changed the array that was passed in: %s" % (
+                          "ds['v'] = a" if form == 'setitem' else "Dataset(v=a)", ename, monitors.describe_diff(s0, s1)))
+                break
     # ---- copy() is deep, both ways
     src = deco(gen.build(case["a"], meta=False))
     for direction in ('copy->orig', 'orig->copy'):
